@@ -62,6 +62,13 @@ fn model(compressed: bool, input: &[u8]) -> Expect {
 
 /// Judge one buffer. Records at most a few violations (distinct signatures).
 pub fn judge(compressed: bool, input: &[u8], order: u64, replay: serde_json::Value, acc: &mut Acc) {
+    judge_lazy(compressed, input, order, &|| replay.clone(), acc, false)
+}
+
+/// As `judge`, the replay record being built only when a violation is recorded.
+/// `light` leaves out the frame-alone re-decode (independence from the following bytes), which the
+/// other sites judge; totality, consumption, the tail and the successor are judged all the same.
+pub fn judge_lazy(compressed: bool, input: &[u8], order: u64, replay: &dyn Fn() -> serde_json::Value, acc: &mut Acc, light: bool) {
     acc.eval();
     let m = if compressed { "compressed" } else { "uncompressed" };
     let codec = Codec::new(mode_of(compressed));
@@ -79,7 +86,7 @@ pub fn judge(compressed: bool, input: &[u8], order: u64, replay: serde_json::Val
                 order,
                 format!("C04|decode|panic|{site}"),
                 format!("[{m}] decoding {} panicked: {p}", short(input)),
-                replay,
+                replay(),
             );
             return;
         },
@@ -90,7 +97,7 @@ pub fn judge(compressed: bool, input: &[u8], order: u64, replay: serde_json::Val
         (Expect::NeedMore, Ok(None)) => {
             if buf[..] != input[..] {
                 acc.violate(order, "C04|decode|need-more-but-buffer-changed".into(),
-                    format!("[{m}] {} -> need more data, but the buffer was modified", short(input)), replay);
+                    format!("[{m}] {} -> need more data, but the buffer was modified", short(input)), replay());
             }
             acc.class("need-more");
         },
@@ -103,7 +110,7 @@ pub fn judge(compressed: bool, input: &[u8], order: u64, replay: serde_json::Val
         (Expect::NeedMore, other) => {
             acc.class("bad-need-more");
             acc.violate(order, "C04|decode|incomplete-frame-not-need-more".into(),
-                format!("[{m}] {} holds only part of the announced frame but the decoder returned {}", short(input), brief(other)), replay);
+                format!("[{m}] {} holds only part of the announced frame but the decoder returned {}", short(input), brief(other)), replay());
         },
         (Expect::Impossible, Err(_)) => {
             acc.class("framing-error");
@@ -112,31 +119,31 @@ pub fn judge(compressed: bool, input: &[u8], order: u64, replay: serde_json::Val
             // fewer than 4 bytes: waiting is acceptable
             if buf[..] != input[..] {
                 acc.violate(order, "C04|decode|need-more-but-buffer-changed".into(),
-                    format!("[{m}] {} -> need more data, but the buffer was modified", short(input)), replay);
+                    format!("[{m}] {} -> need more data, but the buffer was modified", short(input)), replay());
             }
             acc.class("need-more");
         },
         (Expect::Impossible, other) => {
             acc.class("impossible-length-accepted");
             acc.violate(order, format!("C04|framing|announced-length-below-4|{m}"),
-                format!("[{m}] size byte {} announces a frame shorter than 4 bytes; decoder returned {} after removing {consumed} byte(s) instead of a framing error", input[0], brief(other)), replay);
+                format!("[{m}] size byte {} announces a frame shorter than 4 bytes; decoder returned {} after removing {consumed} byte(s) instead of a framing error", input[0], brief(other)), replay());
         },
         (Expect::Frame(n), Ok(None)) => {
             acc.class("stuck");
             acc.violate(order, "C04|decode|complete-frame-not-consumed".into(),
-                format!("[{m}] {} holds a complete {n}-byte frame but the decoder asks for more data (no progress)", short(input)), replay);
+                format!("[{m}] {} holds a complete {n}-byte frame but the decoder asks for more data (no progress)", short(input)), replay());
         },
         (Expect::Frame(n), res) => {
             let n = *n;
             if consumed != n {
                 acc.class("wrong-consumption");
                 acc.violate(order, "C04|decode|consumed-not-announced".into(),
-                    format!("[{m}] announced frame of {n} bytes but {consumed} byte(s) were removed from {}", short(input)), replay);
+                    format!("[{m}] announced frame of {n} bytes but {consumed} byte(s) were removed from {}", short(input)), replay());
                 return;
             }
             if buf[..] != input[n..] {
                 acc.violate(order, "C04|decode|tail-corrupted".into(),
-                    format!("[{m}] bytes after the frame were altered: {}", short(input)), replay);
+                    format!("[{m}] bytes after the frame were altered: {}", short(input)), replay());
                 return;
             }
             if res.is_ok() {
@@ -146,7 +153,7 @@ pub fn judge(compressed: bool, input: &[u8], order: u64, replay: serde_json::Val
             }
             acc.key(h64(&input[..n]) ^ compressed as u64);
             // independence from what follows: same verdict on the frame alone
-            if input.len() > n {
+            if input.len() > n && !light {
                 let mut alone = BytesMut::from(&input[..n]);
                 let r2 = guard(|| codec.decode(&mut alone));
                 let a = format!("{:?}", res);
@@ -156,9 +163,11 @@ pub fn judge(compressed: bool, input: &[u8], order: u64, replay: serde_json::Val
                 };
                 if a != b {
                     acc.violate(order, format!("C04|decode|depends-on-following-bytes|type-{}", input[1]),
-                        format!("[{m}] frame {} decodes differently when followed by {}: {} vs alone {}", short(&input[..n]), short(&input[n..]), a.chars().take(120).collect::<String>(), b.chars().take(120).collect::<String>()), replay);
+                        format!("[{m}] frame {} decodes differently when followed by {}: {} vs alone {}", short(&input[..n]), short(&input[n..]), a.chars().take(120).collect::<String>(), b.chars().take(120).collect::<String>()), replay());
                     return;
                 }
+            }
+            if input.len() > n {
                 // and the successor is intact and decodable
                 let mut rest = buf.clone();
                 let sent: &[u8] = if compressed { &SENTINEL_C } else { &SENTINEL_U };
@@ -167,7 +176,7 @@ pub fn judge(compressed: bool, input: &[u8], order: u64, replay: serde_json::Val
                         Ok(Ok(Some(insim::Packet::Tiny(t)))) if t.reqi.0 == 0x5a => {},
                         other => {
                             acc.violate(order, "C04|decode|successor-lost".into(),
-                                format!("[{m}] the TINY frame following {} was not delivered: {}", short(&input[..n]), match other { Ok(x) => format!("{x:?}").chars().take(100).collect::<String>(), Err(p) => p }), replay);
+                                format!("[{m}] the TINY frame following {} was not delivered: {}", short(&input[..n]), match other { Ok(x) => format!("{x:?}").chars().take(100).collect::<String>(), Err(p) => p }), replay());
                         },
                     }
                 }
@@ -417,6 +426,74 @@ pub fn sites(tier: Tier) -> Vec<Site> {
                 let replay = json!({"site": "mutation-2-any", "index": i, "frame": name, "positions": [p, q], "values": [a, b], "input": hex(&buf[..buf.len().min(64)])});
                 judge(*compressed, &buf, i, replay, acc);
             }));
+    }
+
+    // 3c. mutation distance 2 on ADJACENT bytes, all 65536 value pairs: the deviation that turns one
+    // character of a string-valued field into a multi-byte sequence, or both halves of a 16-bit
+    // field at once.  quick: pairs inside (or straddling the end of) every string-valued top-level
+    // field (gamever, vehicle, track, char, raw, fixed and variable text; first 4 and last 2 bytes of the
+    // field); thorough: every adjacent pair of every B0/B1 reference frame.
+    {
+        let mut targets: Vec<(String, bool, Vec<u8>, usize)> = vec![];
+        for k in &gen.kinds {
+            for b in 0..2u8 {
+                let vals = baseline(k, b);
+                let lay = spec::layout(k, &vals);
+                for c in [true, false] {
+                    let Some(f) = spec::ref_encode(k, &vals, c) else { continue };
+                    let mut ps: Vec<usize> = vec![];
+                    if tier == Tier::Thorough {
+                        ps.extend(0..f.len() - 1);
+                    } else if b == 1 {
+                        for (fi, start, len) in &lay {
+                            let stringy = matches!(
+                                k.fields[*fi].ty,
+                                spec::Ty::GameVer
+                                    | spec::Ty::Vehicle
+                                    | spec::Ty::Track
+                                    | spec::Ty::Char
+                                    | spec::Ty::Raw(_)
+                                    | spec::Ty::Text(_)
+                                    | spec::Ty::VarText { .. }
+                            );
+                            if !stringy || *len == 0 {
+                                continue;
+                            }
+                            let parsed = matches!(k.fields[*fi].ty, spec::Ty::GameVer | spec::Ty::Vehicle | spec::Ty::Track);
+                            for o in 0..*len {
+                                if parsed || o < 3 || o + 2 >= *len {
+                                    ps.push(start + o);
+                                }
+                            }
+                        }
+                        ps.retain(|p| p + 1 < f.len());
+                        ps.sort();
+                        ps.dedup();
+                    }
+                    for p in ps {
+                        targets.push((format!("{} B{b}", k.name), c, f.clone(), p));
+                    }
+                }
+            }
+        }
+        let total = targets.len() as u64 * 65536;
+        let targets = Arc::new(targets);
+        sites.push(Site::new(
+            "mutation-2-adjacent",
+            total,
+            "reference frames (both modes) x adjacent byte positions (p, p+1) x all 65536 value pairs, followed by a sentinel TINY; quick: B1 frames, positions inside or straddling the end of every string-valued top-level field (gamever, vehicle, track: all; char, raw, text: first 3 and last 2 bytes); thorough: B0 and B1 frames, every position",
+            move |i, acc| {
+                let (name, compressed, frame, p) = &targets[(i / 65536) as usize];
+                let a = ((i % 65536) >> 8) as u8;
+                let b = (i & 255) as u8;
+                let mut buf = frame.clone();
+                buf[*p] = a;
+                buf[*p + 1] = b;
+                buf.extend_from_slice(if *compressed { &SENTINEL_C } else { &SENTINEL_U });
+                let replay = || json!({"site": "mutation-2-adjacent", "index": i, "frame": name, "positions": [p, p + 1], "values": [a, b], "input": hex(&buf[..buf.len().min(64)])});
+                judge_lazy(*compressed, &buf, i, &replay, acc, true);
+            },
+        ));
     }
 
     // 4. all short buffers over a 16-symbol alphabet
